@@ -183,10 +183,15 @@ func (s *session) QueryMachine() error {
 					s.HandleError(pserr.ErrMaxStmtNumberExceeded)
 					continue
 				}
-				if paramCols, resCols, err = s.inferParamAndResultCols(stmts[0]); err != nil {
-					waitForSync = extQueryMode
-					s.HandleError(err)
-					continue
+				// An empty query string (or one holding only comments) parses to no
+				// statement: it has no parameters and no result columns, and Execute
+				// answers EmptyQueryResponse as the simple-query path does.
+				if len(stmts) == 1 {
+					if paramCols, resCols, err = s.inferParamAndResultCols(stmts[0]); err != nil {
+						waitForSync = extQueryMode
+						s.HandleError(err)
+						continue
+					}
 				}
 			}
 
